@@ -24,7 +24,7 @@ ASSUMPTIONS = ["the scripted coupling process stands for any coupling process (t
                "kurtosis is compared on profiles whose per-level sample variance is >= 1 (below, the statement does not fix the formula)",
                "sample budget 2e6 per run: beyond it the run is inconclusive, not a violation"]
 REQUIRED_COUNTERS = ["runs_adaptive", "runs_fixed_level", "rows_checked", "levels_added_late", "multi_pass_runs", "add_events",
-                     "vector_payoff_runs", "control_variate_runs", "control_rows_checked", "adjusted_series_checks", "price_checks", "multi_process_runs", "scripted_allocation_histories"]
+                     "vector_payoff_runs", "control_variate_runs", "control_rows_checked", "adjusted_series_checks", "price_checks", "multi_process_runs", "scripted_allocation_histories", "runs_on_an_engine_that_priced_before"]
 MIN_NONTRIVIAL = {"quick": 40, "thorough": 500}
 SHARD_TIMEOUT = {"quick": 900, "thorough": 7200}
 
@@ -222,6 +222,20 @@ def run_case(case, R):
     wit = {"case": case, "rmse": rmse}
     eng = Engine(conf, cp)
     kindtag = f"dim{'1' if dim == 1 else 'N'}-cv{'0' if ncv == 0 else 'N'}"
+    base_events = 0
+    if case["seed"] % 4 == 1 and workers == 1 and case["variant"] == "adaptive" and not case.get("script"):
+        # the engine object has priced before, with a tighter target (more samples and possibly more levels than the run judged below)
+        try:
+            eng.price(product, rmse * 0.45)
+        except BudgetExceeded:
+            R.skip("sample-budget-exceeded")
+            return
+        except Exception as exc:  # noqa: BLE001
+            R.violation(f"engine-raises-when-priced-again-{kindtag}", f"multilevel Engine raises {type(exc).__name__}: {exc}", wit)
+            return
+        R.hit("runs_on_an_engine_that_priced_before")
+        base_events = len(cp.log.events)
+        cp.budget += cp.counters.total()
     with Tap() as tap:
         try:
             st = eng.price(product, rmse) if case["variant"] == "adaptive" else eng.price_with_constant_mc_paths_and_level(product)
@@ -243,7 +257,7 @@ def run_case(case, R):
     by_level = {}
     passes = []           # sizes of the consecutive blocks of samples per level, in order
     last = None
-    events = cp.log.events
+    events = cp.log.events[base_events:]
     if workers > 1:
         # the samples are simulated in worker processes (their log stays there): the reference model is fed by the values handed to the
         # payoff statistics in the parent process (scalar Forward payoff: the terminal values are recovered from the discounted payoff)
